@@ -584,6 +584,7 @@ func (rn *runner) endToEnd(docs [][]byte, qs []qspec, big ...subjSpec) {
 		results[e] = res
 	}
 	base := results["unset"]
+	loneChecks := 0
 	for i, q := range qs {
 		goV, key := "", ""
 		var d detail
@@ -594,8 +595,22 @@ func (rn *runner) endToEnd(docs [][]byte, qs []qspec, big ...subjSpec) {
 				if strings.HasPrefix(results[e][i], "panic:") {
 					kind = "panic"
 				}
+				seq := []qspec{q}
+				if kind == "unexplained" {
+					// keep the whole sequence up to this query in the replay: the cause may lie in an earlier search
+					seq = append([]qspec(nil), qs[:i+1]...)
+				}
+				if kind == "unexplained" && loneChecks < 6 {
+					// does the same query, run alone in a fresh process under the same setting, agree with the baseline?
+					// then the difference depends on the searches that ran before it in this process
+					loneChecks++
+					ev := e
+					if lone, err := runLone(sf.Name(), q, &ev); err == nil && lone == base[i] {
+						kind = "depends-on-earlier-searches"
+					}
+				}
 				key = "e2e-threshold-changes-results:" + kind
-				d = detail{Env: e, Queries: []qspec{q}, Docs: docStrings(small), BigDocs: big}
+				d = detail{Env: e, Queries: seq, Docs: docStrings(small), BigDocs: big}
 				break
 			}
 		}
@@ -686,6 +701,27 @@ func explainE2E(q qspec, docs [][]byte) string {
 	return "unexplained"
 }
 
+// runLone searches one query in a fresh child process.
+func runLone(shard string, q qspec, envVal *string) (string, error) {
+	qf, err := os.CreateTemp(filepath.Dir(shard), "c28-lone-*.json")
+	if err != nil {
+		return "", err
+	}
+	defer os.Remove(qf.Name())
+	raw, _ := json.Marshal([]qspec{q})
+	qf.Write(raw)
+	qf.Close()
+	out, err := runChild("search", envVal, shard, qf.Name())
+	if err != nil {
+		return "", err
+	}
+	var res []string
+	if err := json.Unmarshal([]byte(out), &res); err != nil || len(res) != 1 {
+		return "", fmt.Errorf("unreadable")
+	}
+	return res[0], nil
+}
+
 func docStrings(docs [][]byte) []string {
 	var out []string
 	for _, d := range docs {
@@ -765,6 +801,7 @@ func main() {
 	t0 := time.Now()
 	rn.thresholdParsing(f.Tier != "thorough")
 	rn.dispatch(r.Fork(), f.N(120, 2000))
+	rn.matchTreeSequence(r.Fork(), f.N(250, 4000))
 	rn.wrapper(r.Fork(), f.Tier == "thorough")
 	fmt.Fprintf(os.Stderr, "wrapper sweep %.1fs\n", time.Since(t0).Seconds())
 
@@ -786,8 +823,19 @@ func main() {
 			subjects = append(subjects, longSubject(r, hints, gen.Pick(r, []int{63, 64, 65, 300, 5000})))
 		}
 		rn.enginePair(text, cs, subjects)
-		if i%7 == 0 && len(e2eQs) < f.N(40, 500) {
-			e2eQs = append(e2eQs, qspec{Pattern: text, CaseSensitive: cs, FileName: r.Chance(1, 8), ViaParser: r.Bool()})
+		if i%7 == 0 && len(e2eQs) < f.N(70, 900) {
+			q := qspec{Pattern: text, CaseSensitive: cs, FileName: r.Chance(1, 8), ViaParser: r.Bool()}
+			e2eQs = append(e2eQs, q)
+			// the same regexp text again with other settings, in the same process: anything a search leaves behind for later
+			// searches (memoised compilations, pooled state) must not leak from one reading of the text to another
+			tw := q
+			tw.CaseSensitive = !q.CaseSensitive
+			e2eQs = append(e2eQs, tw)
+			if r.Chance(1, 3) {
+				tw2 := q
+				tw2.FileName = !q.FileName
+				e2eQs = append(e2eQs, tw2, q)
+			}
 			e2eHints = append(e2eHints, hints...)
 		}
 	}
